@@ -88,6 +88,8 @@ impl CreationTimestamp {
         // so that no two calls can return the same pair, even if the clock steps back
         static LAST_CREATION: Mutex<(DtnTime, u64)> = Mutex::new((0, 0));
         let now = dtn_time_now();
+        #[cfg(bp7_verif)]
+        crate::verif_hooks::sched_point(1);
         let mut last = LAST_CREATION.lock().unwrap_or_else(|e| e.into_inner());
         if now > last.0 {
             *last = (now, 0);
